@@ -719,6 +719,7 @@ class Choices:
         self.legacy_header = False         # 1.x header subset: VERS, BPM, SPED, GVOL only
         self.smin_empty = False
         self.stale_after_nul = None        # seed: leave non-zero garbage after the first NUL of cstrings / inside SNAM padding
+        self.snam_overlong = False         # older writers stored names longer than the 32-byte field verbatim (set by C05 only)
         if r is not None:
             self.header_perm = r.randrange(1 << 30) if r.random() < 0.5 else None
             self.time_reps_when_zero = r.random() < 0.5
@@ -839,6 +840,9 @@ def encode_module(m, ctx, index, ch, depth):
         if r.random() < 0.6:
             tail = bytes(r.choice(b"abcXYZ 0123") for _ in range(31 - len(name)))
             snam = name + b"\0" + tail
+    if ch is not None and ch.snam_overlong and name.isascii() and index % 2 == 1:
+        # 40 bytes, no terminator, a blank exactly at byte 32
+        snam = name[:28].ljust(31, b"_") + b" " + b"overflow"
     out.append((b"SNAM", snam))
     if m["type"] != "Output":
         out.append((b"STYP", m["type"].encode(ENC) + b"\0"))
